@@ -17,6 +17,7 @@ import (
 type engines struct {
 	cfg    *config.Engine
 	stores map[int]storage.Engine
+	cursor map[int]uint64 // paused scans ("eng.scanpage"): the cursor to resume from, per store
 }
 
 func (r *Run) engine(id int) (storage.Engine, error) {
@@ -155,6 +156,33 @@ func (r *Run) doEngine(op *plan.Op, rec *plan.Rec) {
 				rec.Err = "other:scan did not terminate"
 				break
 			}
+		}
+		rec.N = len(rec.Keys)
+	case "eng.scanpage":
+		// Tag "begin": one page from cursor 0, the cursor is kept; Tag "rest": resume and run to the end.
+		if r.eng.cursor == nil {
+			r.eng.cursor = map[int]uint64{}
+		}
+		count := max(op.Count, 1)
+		f := func(e storage.Entry) bool { rec.Keys = append(rec.Keys, e.Key()); return true }
+		if op.Tag == "begin" {
+			cur, err := s.Scan(0, count, f)
+			rec.Err, rec.Has = engErr(err), cur == 0
+			r.eng.cursor[op.M] = cur
+		} else {
+			cur := r.eng.cursor[op.M]
+			for i := 0; cur != 0; i++ {
+				var err error
+				if cur, err = s.Scan(cur, count, f); err != nil {
+					rec.Err = engErr(err)
+					break
+				}
+				if i > 100000 {
+					rec.Err = "other:scan did not terminate"
+					break
+				}
+			}
+			rec.Has = true
 		}
 		rec.N = len(rec.Keys)
 	case "eng.compact":
